@@ -9,6 +9,7 @@
 #include <cmath>
 #include <set>
 #include <vector>
+#include <array>
 #include "mcx/mcx.h"
 #ifdef C14_ARENA
 #include "mcx/arena.h"
@@ -27,10 +28,12 @@ struct Cfg { int start; int sizes; bool aca, nearAlign; int aspect; int heap; in
 static string cfg_str(const Cfg &c) { return mcx::fmt("start=%s sizes=%s useACAforLinks=%d do_near_align=%d aspect=%d heap=%d", c.start == 0 ? "circle" : c.start == 1 ? "coincident" : "line", c.sizes == 0 ? "30x30" : c.sizes == 1 ? "mixed" : c.sizes == 2 ? "nodes1,2=300x20" : "nodes1,2=20x300", c.aca, c.nearAlign, c.aspect, c.heap) + (c.optset ? mcx::fmt(" optset=%d", c.optset) : std::string()); }
 static string gstr(int n, const EL &es) { string s = mcx::fmt("n=%d edges:", n); for (auto &e : es) s += mcx::fmt(" %d-%d", e.first, e.second); return s; }
 
+static const vector<array<double, 4>> *g_witness = nullptr;   // a witness input with its own node positions and sizes (x, y, w, h), see phase_witnesses()
 static void run_one(int n, const EL &es, const Cfg &c) {
-    string desc = "doHOLA " + gstr(n, es) + " " + cfg_str(c), why, obs; int sepViol = 0, sepViolBentEdgeAlign = 0;
+    string desc = "doHOLA " + gstr(n, es) + " " + cfg_str(c) + (g_witness ? " (positions and sizes of witness input #1 instead of start/sizes)" : ""), why, obs; int sepViol = 0, sepViolBentEdgeAlign = 0;
     ostringstream t; vector<pair<double, double>> dims;
     for (int i = 0; i < n; i++) {
+        if (g_witness) { const double *q = (*g_witness)[i].data(); dims.push_back({q[2], q[3]}); t << i << " " << mcx::fmt("%.17g %.17g %.17g %.17g", q[0], q[1], q[2], q[3]) << "\n"; continue; }
         double x, y; if (c.start == 0) { double a = 2 * M_PI * i / n; x = 100 + 80 * cos(a); y = 100 + 80 * sin(a); } else if (c.start == 1) { x = 100; y = 100; } else { x = 60 * i; y = 0; }
         double w = 30, h = 30; if (c.sizes == 1) { w = (i % 2) ? 60 : 30; h = (i % 3 == 0) ? 20 : 40; }
         if (c.sizes == 2 && (i == 1 || i == 2)) { w = 300; h = 20; }   // two nodes far wider than the ideal edge length (twice the average node dimension)
@@ -98,6 +101,7 @@ static void run_one(int n, const EL &es, const Cfg &c) {
     vector<string> kc; if (c.aspect != 2 && c.sizes) kc.push_back("aspect_rotation_nonsquare");
     if (c.optset == 4 && (int)es.size() == n - 1) kc.push_back("strict_tree_routing_with_node_padding_half");   // a pure tree laid out with wholeTreeRouting=STRICT and nodePaddingScalar=0.5
     if (c.start == 2 && n >= 5) kc.push_back("collinear_start");
+    if (g_witness && !c.nearAlign) kc.push_back("witness_hexagon_with_five_hanging_nodes_near_align_off");
     if (c.sizes == 3 && (int)es.size() == n - 1 && c.optset == 0) kc.push_back("tree_with_nodes_longer_than_the_rank_separation");   // a pure tree (default growth direction: vertical) with nodes 300 tall
     if (sepViol > 0 && sepViol == sepViolBentEdgeAlign) kc.push_back("alignment_of_an_edge_that_is_routed_with_bends");   // every node centre initially on one line (degenerate for the stress layout)
     if (!why.empty()) ctx.violation(why, kc, desc, obs);
@@ -145,6 +149,35 @@ static void phase_leafless_cores(int n0, int tmax, const vector<Cfg> &cfgs) {
             } }
     }
 }
+// cycles with pendant nodes: C_n with one leaf hanging on every node of a subset S -- EVERY subset.  Several one-node trees then land side by side in one face
+// of the core (the situation tree re-insertion, near alignment and the final destress have to sort out).
+static void phase_cycle_pendants(int n0, const vector<Cfg> &cfgs) {
+    ctx.phase(mcx::fmt("cycle C%d with a pendant node on every node of a subset, every non-empty subset x %zu configurations", n0, cfgs.size()));
+    for (unsigned mask = 1; mask < (1u << n0) && !ctx.stopped(); mask++) {
+        EL es; for (int i = 0; i < n0; i++) es.push_back({i, (i + 1) % n0}); int n = n0; for (int i = 0; i < n0; i++) if (mask >> i & 1) es.push_back({i, n++});
+        for (auto &c : cfgs) { if (!ctx.next()) continue; ctx.count("states"); ctx.count("nontrivial"); ctx.sample(gstr(n, es) + " " + cfg_str(c), 1); run_one(n, es, c); ctx.done_case(); }
+    }
+}
+// ... and with SEVERAL leaves per cycle node: every distribution of 1..tmax leaves over the nodes of C_n0 (stars hanging on the cycle: several one-node trees share a root)
+static void phase_cycle_leaf_distributions(int n0, int tmax, const vector<Cfg> &cfgs) {
+    ctx.phase(mcx::fmt("cycle C%d with every distribution of 1..%d leaves over its nodes x %zu configurations", n0, tmax, cfgs.size()));
+    vector<int> cnt(n0, 0);
+    while (true) { int k = 0; while (k < n0 && ++cnt[k] > tmax) { cnt[k] = 0; k++; } if (k == n0) break; int tot = 0; for (int v : cnt) tot += v; if (tot > tmax) continue; if (ctx.stopped()) return;
+        EL es; for (int i = 0; i < n0; i++) es.push_back({i, (i + 1) % n0}); int n = n0; for (int i = 0; i < n0; i++) for (int q = 0; q < cnt[i]; q++) es.push_back({i, n++});
+        for (auto &c : cfgs) { if (!ctx.next()) continue; ctx.count("states"); ctx.count("nontrivial"); ctx.sample(gstr(n, es) + " " + cfg_str(c), 1); run_one(n, es, c); ctx.done_case(); } }
+}
+// witness inputs: concrete graphs with irregular positions and sizes on which a failure was once found (by a seeding sub-agent's random search), kept as fixed members of
+// the alphabet.  #1: a hexagon with five hanging nodes (three of them on one cycle node, one of these with a child of its own).
+static void phase_witnesses() {
+    static const vector<array<double, 4>> W1 = {{75.779040013701604, 345.31781681531078, 36.153307712120863, 46.291007522972365}, {253.67156438410757, 565.43341048914249, 35.635319646623088, 26.813585612622759},
+        {234.56128158189125, 320.02207809419747, 31.944287275453291, 34.668040981754949}, {503.31992475106443, 24.132436757921788, 59.180455503608556, 25.198936487010716}, {14.892883140243921, 260.31234584668442, 57.400096923182623, 42.498261191057729},
+        {446.3185581592561, 82.495245713258342, 26.830908367114723, 45.57110509822347}, {122.18151716108734, 565.6918978448532, 20.536638306609511, 54.423926433373659}, {183.57157697003112, 61.945334930171136, 45.150663688777982, 46.348506209939309},
+        {60.449977624573116, 246.58414268601788, 34.208819257055126, 49.69936299060808}, {222.33090474628551, 453.04045924511155, 22.338940509897011, 53.591601165849795}, {60.655963118151561, 292.91967528095512, 46.624607424191751, 46.190366923297361}};
+    static const EL E1 = {{1, 0}, {5, 0}, {2, 1}, {3, 2}, {2, 6}, {4, 3}, {3, 7}, {8, 3}, {9, 3}, {4, 5}, {9, 10}};
+    ctx.phase("witness inputs (irregular positions and sizes): hexagon with five hanging nodes x link mode x near-align");
+    for (int aca = 0; aca < 2; aca++) for (int na = 0; na < 2; na++) { if (!ctx.next()) continue; Cfg c{0, 0, (bool)aca, (bool)na, 0, 0}; ctx.count("states"); ctx.count("nontrivial"); ctx.sample("witness#1 " + cfg_str(c), 1);
+        g_witness = &W1; run_one(11, E1, c); g_witness = nullptr; ctx.done_case(); }
+}
 int main(int argc, char **argv) {
     ctx.init(argc, argv); ctx.viol_cap = 1000000;   // every failing input is recorded (some known findings list specific inputs)
     bool T = ctx.thorough();
@@ -157,6 +190,8 @@ int main(int argc, char **argv) {
     { vector<Cfg> ct; for (int aca = 0; aca < 2; aca++) for (int as = 0; as < 3; as++) ct.push_back({0, 0, (bool)aca, true, as, 0}); phase_core_trees(T ? 5 : 4, ct);
       { vector<Cfg> co; for (int o = 1; o <= 4; o++) { Cfg c{0, 0, true, true, 0, 0}; c.optset = o; co.push_back(c); Cfg d{0, 1, false, true, 1, 0}; d.optset = o; if (T) co.push_back(d); } phase_core_trees(T ? 4 : 3, co); phase(4, co, "non-default option sets"); if (T) phase(5, co, "non-default option sets"); }
       vector<Cfg> c2 = {{0, 0, true, true, 0, 0}, {0, 0, false, true, 0, 0}}; phase_leafless_cores(4, 2, ct); phase_leafless_cores(5, 1, c2); if (T) phase_leafless_cores(5, 2, c2); }
+    phase_witnesses();
+    { vector<Cfg> cp; for (int aca = 0; aca < 2; aca++) for (int na = 0; na < 2; na++) cp.push_back({0, 0, (bool)aca, (bool)na, 0, 0}); phase_cycle_pendants(4, cp); phase_cycle_pendants(5, cp); phase_cycle_pendants(6, cp); phase_cycle_pendants(7, cp); phase_cycle_leaf_distributions(4, 4, cp); phase_cycle_leaf_distributions(6, 5, cp); phase_cycle_leaf_distributions(5, 5, cp); if (T) { phase_cycle_pendants(8, cp); phase_cycle_leaf_distributions(6, 6, cp); phase_cycle_leaf_distributions(7, 5, cp); vector<Cfg> cm; for (int aca = 0; aca < 2; aca++) cm.push_back({0, 1, (bool)aca, true, 2, 0}); phase_cycle_leaf_distributions(6, 5, cm); } }
     if (T) { phase(5, mid, "starts x sizes x link mode"); phase(6, {{0, 0, true, true, 0, 0}, {0, 0, false, true, 0, 0}}, "link mode, circle start"); phase(6, {{1, 1, true, true, 1, 0}, {2, 1, false, false, 2, 0}}, "coincident/line starts, mixed sizes"); }
     return ctx.finish();
 }
